@@ -1,4 +1,5 @@
 mod c01;
+mod c03;
 mod c02;
 mod c04;
 mod c09;
@@ -21,6 +22,9 @@ mod rng;
 mod scripted;
 
 use fw::{Check, DriveOpts, Tier, WorkerArgs};
+
+#[global_allocator]
+static GLOBAL: c03::AcctAlloc = c03::AcctAlloc;
 use std::path::PathBuf;
 
 macro_rules! registry {
@@ -28,6 +32,7 @@ macro_rules! registry {
         match $id {
             "C01" => $mac!(c01::C01),
             "C02" => $mac!(c02::C02),
+            "C03" => $mac!(c03::C03),
             "C04" => $mac!(c04::C04),
             "C05" => $mac!(lc::C05),
             "C06" => $mac!(pipechecks::C06),
@@ -49,7 +54,7 @@ macro_rules! registry {
     };
 }
 
-pub const ALL_IDS: &[&str] = &["C01", "C02", "C04", "C05", "C06", "C07", "C08", "C09", "C10", "C12", "C13", "C17", "C18", "C19", "C20"];
+pub const ALL_IDS: &[&str] = &["C01", "C02", "C03", "C04", "C05", "C06", "C07", "C08", "C09", "C10", "C12", "C13", "C17", "C18", "C19", "C20"];
 
 fn arg_val(args: &[String], name: &str) -> Option<String> {
     args.iter()
